@@ -138,7 +138,7 @@ PROPS["C20"] = {
     "required_theorems": ["Posmint.Props.C20." + t for t in ("uvarint_roundtrip", "varint_roundtrip", "lenPrefixed_roundtrip", "intText_roundtrip",
                           "coin_roundtrip", "coins_roundtrip", "powerKey_roundtrip", "powerKey_order", "formatCivil_order", "inclusiveEnd_spec", "hex_roundtrip", "coinText_roundtrip", "parseCoinText_sound", "parseCoinText_spaces",
                           "fields_roundtrip", "encodeFields_injective", "flatMsg_injective", "msgSend_is_flat", "msgSend_injective",
-                          "struct_roundtrip", "encodeStruct_injective", "encodeTime_injective", "validator_roundtrip", "validator_injective", "signing_injective", "stdTx_injective", "validator_shape", "signing_shape", "flat_messages_shape", "stdTx_shape", "stake_upgrade_shape", "account_injective", "account_shape")],
+                          "struct_roundtrip", "encodeStruct_injective", "encodeTime_injective", "validator_roundtrip", "validator_injective", "signing_injective", "stdTx_injective", "validator_shape", "signing_shape", "flat_messages_shape", "stdTx_shape", "stake_upgrade_shape", "account_injective", "account_shape", "upgradePlan_injective")],
     "t1": [{"family": "codec", "model": "codec", "stateless": True, "quick_n": 60000, "thorough_n": 10000000, "corpus": "codec"}],
     "rule": "values and byte strings from boundary-biased generators: uvarints/varints around powers of two and 2^64, Int text of up to 255 bits "
             "and malformed text, Coin/Coins with empty and maximal denominations and truncated encodings, MsgSend with empty / 20-byte / odd-length "
